@@ -143,8 +143,9 @@ def Fmt.bias (f : Fmt) : Nat := 2 ^ (f.E - 1) - 1
 def Fmt.q0 (f : Fmt) : Nat := 1075 - f.bias - f.M
 def Fmt.infMag (f : Fmt) : Nat := (2 ^ f.E - 1) * 2 ^ f.M
 def Fmt.signBit (f : Fmt) : Nat := 2 ^ (f.E + f.M)
-/-- The format is no wider than binary64 in range and precision (so that the 2^-1074 unit is fine enough). -/
-def Fmt.ok (f : Fmt) : Prop := 1 ≤ f.E ∧ 1 ≤ f.M ∧ f.bias + f.M ≤ 1075
+/-- The format is no wider than binary64 in range and precision (so that the 2^-1074 unit is fine enough:
+    `bias + M ≤ 1075` follows). -/
+def Fmt.ok (f : Fmt) : Prop := 1 ≤ f.E ∧ f.E ≤ 11 ∧ 1 ≤ f.M ∧ f.M ≤ 52
 
 /-- The value a pattern denotes. `fin neg n` is `(-1)^neg · n · 2^-1074`. -/
 inductive FVal where
@@ -629,12 +630,25 @@ def resultLen (q : Req) (len : Option Nat) : Nat :=
   | none => (naturalLen q).getD 0
 
 /-- Routes that exist for a request: a `bytes` value cannot be spelled in a token string; a plain property
-    assignment of `pad` has no length to use. -/
-def applicable (r : Route) (q : Req) : Bool :=
-  match r, q with
-  | .token, .bytes _ => false
-  | .prop, .pad => false
-  | _, _ => true
+    assignment of `pad` has no length to use (and `a.pad = None` is what "property with length" is without a length). -/
+def applicable (r : Route) (q : Req) (len : Option Nat) : Bool :=
+  match r, q, len with
+  | .token, .bytes _, _ => false
+  | .prop, .pad, _ => false
+  | .propLen, .pad, none => false
+  | _, _, _ => true
+
+/-- The region in which the code ignores a requested length (DESIGN §7, owned by C15): keyword routes,
+    dtypes whose `set_fn` takes its length from the value. -/
+def kw_length_ignored (r : Route) (q : Req) (len : Option Nat) : Bool :=
+  (r = .kw || r = .nameLen) &&
+  (match q with
+   | .str _ _ | .bits _ => true
+   | .bytes _ => r = .nameLen
+   | _ => false) &&
+  (match bitLen q len, naturalLen q with
+   | some n, some m => n ≠ m
+   | _, _ => false)
 
 /-! ## Get functions (ALG) -/
 
